@@ -68,7 +68,8 @@ func bytesObjStm(d *rawpdf.Doc) []byte {
 
 // nestedDoc builds an n-page marker document whose pages inherit everything from INTERMEDIATE page tree nodes: the root
 // /Pages node carries no inheritable attribute, first-level nodes (4 pages each) carry /MediaBox, second-level nodes
-// (2 pages each) carry /Rotate and every other one a /CropBox; the page dictionaries carry none of them.
+// (2 pages each) carry /Rotate and every other one a /CropBox; /Resources sits on first-level and on some second-level nodes;
+// the page dictionaries carry none of them.
 func nestedDoc(n int, prefix string) *rawpdf.Doc {
 	d := &rawpdf.Doc{}
 	cat := d.Reserve()
@@ -76,6 +77,7 @@ func nestedDoc(n int, prefix string) *rawpdf.Doc {
 	root := d.Reserve()
 	font := d.Add("<< /Type /Font /Subtype /Type1 /BaseFont /Helvetica >>")
 	var l1refs []string
+	l2res := map[int]string{}
 	page := 0
 	for a := 0; page < n; a++ {
 		l1 := d.Reserve()
@@ -88,9 +90,14 @@ func nestedDoc(n int, prefix string) *rawpdf.Doc {
 				page++
 				cs := d.AddStream("", []byte(rawpdf.MarkerContent(fmt.Sprintf("%s-%d", prefix, page))))
 				prefs = append(prefs, fmt.Sprintf("%d 0 R", d.Add(fmt.Sprintf(
-					"<< /Type /Page /Parent %d 0 R /Contents %d 0 R /Resources << /Font << /F1 %d 0 R >> >> >>", l2, cs, font))))
+					"<< /Type /Page /Parent %d 0 R /Contents %d 0 R >>", l2, cs))))
 			}
-			body := fmt.Sprintf("<< /Type /Pages /Parent %d 0 R /Count %d /Kids [%s] /Rotate %d", l1, len(prefs), strings.Join(prefs, " "), 90*((a+b)%4))
+			// /Resources too is inherited: alternately from the second-level and from the first-level node
+			if (a+b)%2 == 0 {
+				body0 := fmt.Sprintf(" /Resources << /Font << /F1 %d 0 R >> >>", font)
+				l2res[l2] = body0
+			}
+			body := fmt.Sprintf("<< /Type /Pages /Parent %d 0 R /Count %d /Kids [%s] /Rotate %d"+l2res[l2], l1, len(prefs), strings.Join(prefs, " "), 90*((a+b)%4))
 			if b == 1 {
 				body += " /CropBox [10 10 150 200]"
 			}
@@ -102,11 +109,50 @@ func nestedDoc(n int, prefix string) *rawpdf.Doc {
 		if a%2 == 1 {
 			media = "[0 0 300 400]"
 		}
-		d.Set(l1, fmt.Sprintf("<< /Type /Pages /Parent %d 0 R /Count %d /Kids [%s] /MediaBox %s >>", root, cnt1, strings.Join(l2refs, " "), media))
+		d.Set(l1, fmt.Sprintf("<< /Type /Pages /Parent %d 0 R /Count %d /Kids [%s] /MediaBox %s /Resources << /Font << /F1 %d 0 R >> /ProcSet [/PDF /Text] >> >>",
+			root, cnt1, strings.Join(l2refs, " "), media, font))
 		l1refs = append(l1refs, fmt.Sprintf("%d 0 R", l1))
 	}
 	d.Set(root, fmt.Sprintf("<< /Type /Pages /Count %d /Kids [%s] >>", n, strings.Join(l1refs, " ")))
 	d.Set(cat, fmt.Sprintf("<< /Type /Catalog /Pages %d 0 R >>", root))
 	d.Info = d.Add(fmt.Sprintf("<< /Title (nested %d) >>", n))
+	return d
+}
+
+// formDoc builds a two page document with an AcroForm: a top-level text field on page 1 and a text field below a
+// naming-only parent on page 2. formDA/formQ: the AcroForm carries a form-level /DA resp. /Q; topDA/nestedDA: the field
+// has its own /DA (a document is only valid if every text field finds a /DA on itself or on the form).
+func formDoc(prefix string, formDA, formQ, topDA, nestedDA bool) *rawpdf.Doc {
+	d := &rawpdf.Doc{}
+	cat := d.Reserve()
+	d.Root = cat
+	pages := d.Reserve()
+	font := d.Add("<< /Type /Font /Subtype /Type1 /BaseFont /Helvetica /Encoding /WinAnsiEncoding >>")
+	p1, p2 := d.Reserve(), d.Reserve()
+	da := func(own bool) string {
+		if own {
+			return " /DA (/Helv 12 Tf 0 g)"
+		}
+		return ""
+	}
+	top := d.Add(fmt.Sprintf("<< /Type /Annot /Subtype /Widget /FT /Tx /T (%stop) /Rect [50 700 250 720] /P %d 0 R /F 4 /V (top value)%s >>", prefix, p1, da(topDA)))
+	parent := d.Reserve()
+	kid := d.Add(fmt.Sprintf("<< /Type /Annot /Subtype /Widget /FT /Tx /T (kid) /Parent %d 0 R /Rect [50 600 250 620] /P %d 0 R /F 4 /V (nested value)%s >>", parent, p2, da(nestedDA)))
+	d.Set(parent, fmt.Sprintf("<< /T (%sgroup) /Kids [%d 0 R] >>", prefix, kid))
+	for i, p := range []int{p1, p2} {
+		cs := d.AddStream("", []byte(rawpdf.MarkerContent(fmt.Sprintf("%s-%d", prefix, i+1))))
+		d.Set(p, fmt.Sprintf("<< /Type /Page /Parent %d 0 R /Contents %d 0 R /Resources << /Font << /F1 %d 0 R >> >> /Annots [%d 0 R] >>",
+			pages, cs, font, []int{top, kid}[i]))
+	}
+	d.Set(pages, fmt.Sprintf("<< /Type /Pages /Count 2 /Kids [%d 0 R %d 0 R] /MediaBox [0 0 595 842] >>", p1, p2))
+	af := fmt.Sprintf("<< /Fields [%d 0 R %d 0 R] /DR << /Font << /Helv %d 0 R >> >> /NeedAppearances true", top, parent, font)
+	if formDA {
+		af += " /DA (/Helv 10 Tf 0 g)"
+	}
+	if formQ {
+		af += " /Q 1"
+	}
+	d.Set(cat, fmt.Sprintf("<< /Type /Catalog /Pages %d 0 R /AcroForm %s >> >>", pages, af))
+	d.Info = d.Add(fmt.Sprintf("<< /Title (form %s) >>", prefix))
 	return d
 }
